@@ -29,11 +29,37 @@ theorem step_g {s s' : St} {l : Label} (hs : step s l = some s') : s'.g = s.g :=
   | e a =>
     have hd := step_e hs
     cases a <;> simp only [eStep] at hd <;> (try split at hd) <;> simp at hd <;> subst hd <;> simp
+  | g a => rw [g_step_frame (step_wd hs)]
 
 theorem exec_g {s0 s : St} {ls : List Label} (he : Exec s0 ls s) : s.g = s0.g := by
   induction he with
   | nil => rfl
   | snoc _ hs ih => rw [step_g hs, ih]
+
+/-- the form of the shutdown never changes -/
+theorem step_sw {s s' : St} {l : Label} (hs : step s l = some s') : s'.sw = s.sw := by
+  cases l with
+  | d a =>
+    have hd := step_d hs
+    cases a <;> simp only [dStep] at hd <;> (try split at hd) <;> (try split at hd) <;>
+      simp [roomTest, drainTest] at hd <;> (try split at hd) <;>
+      (try (obtain ⟨_, hd⟩ := hd)) <;> (try subst hd) <;> simp_all
+  | w i a =>
+    obtain ⟨p, q, _, _, _, _, rfl⟩ := w_step_facts (step_w hs)
+    cases a <;> simp [wEffect]
+  | s a =>
+    have hd := step_s hs
+    cases a <;> simp only [sStep] at hd <;> (try split at hd) <;> (try split at hd) <;> (try split at hd) <;>
+      simp at hd <;> (try (obtain ⟨_, hd⟩ := hd)) <;> (try subst hd) <;> simp_all
+  | e a =>
+    have hd := step_e hs
+    cases a <;> simp only [eStep] at hd <;> (try split at hd) <;> simp at hd <;> subst hd <;> simp
+  | g a => rw [g_step_frame (step_wd hs)]
+
+theorem exec_sw {s0 s : St} {ls : List Label} (he : Exec s0 ls s) : s.sw = s0.sw := by
+  induction he with
+  | nil => rfl
+  | snoc _ hs ih => rw [step_sw hs, ih]
 
 /-! ## (A) a slot canceled while NEW — no thread, or a thread that has not marked itself — is never connected -/
 
@@ -55,6 +81,7 @@ theorem canceled_skip_step {s s' : St} {l : Label} {j : Nat} (hg : s.g = true) (
     have : tsAt s j = .new := getD_ge' hge
     rw [this] at hc; cases hc
   cases l with
+  | g a => rw [g_step_frame (step_wd hs)]; exact ⟨hp, hc, by simp⟩
   | e a =>
     obtain ⟨hws, hts, _⟩ := e_step_frame (step_e hs)
     exact ⟨by rw [pc_congr hws]; exact hp, by rw [tsAt_congr hts]; exact hc, by simp⟩
@@ -94,7 +121,7 @@ theorem canceled_skip_step {s s' : St} {l : Label} {j : Nat} (hg : s.g = true) (
       refine ⟨?_, hc, by simp⟩
       show skipsConnect ((s.ws.set k WP.started).getD j .idle) = true
       rw [getD_set' hlt, if_neg hne]; exact hp
-    | createS | lock | wait | wake _ | relock | unlock | cancelS | ret =>
+    | createG | createS | lock | wait | wake _ | relock | unlock | cancelG | joinG | cancelS | ret =>
       have : s'.ws = s.ws ∧ s'.ts = s.ts := by
         simp only [dStep] at hd
         (repeat' split at hd) <;> simp [roomTest, drainTest] at hd <;> (try split at hd) <;>
@@ -139,6 +166,7 @@ theorem dropped_step {s s' : St} {l : Label} {j : Nat} (hg : s.g = true) (h : In
     dropped (pc s' j) (tsAt s' j) = true := by
   have ht := h.t
   cases l with
+  | g a => rw [g_step_frame (step_wd hs)]; exact hd
   | e a =>
     obtain ⟨hws, hts, _⟩ := e_step_frame (step_e hs)
     rw [pc_congr hws, tsAt_congr hts]; exact hd
@@ -180,7 +208,7 @@ theorem dropped_step {s s' : St} {l : Label} {j : Nat} (hg : s.g = true) (h : In
         have hcc : tsAt s j = .canceled := by simpa [dropped] using hd
         exact hst hcc
       · simp only [if_neg hjk]; exact hd
-    | createS | lock | wait | wake _ | relock | unlock | cancelS | ret =>
+    | createG | createS | lock | wait | wake _ | relock | unlock | cancelG | joinG | cancelS | ret =>
       have : s'.ws = s.ws ∧ s'.ts = s.ts := by
         simp only [dStep] at hdd
         (repeat' split at hdd) <;> simp [roomTest, drainTest] at hdd <;> (try split at hdd) <;>
